@@ -208,11 +208,31 @@ func originGate(p *ana.Prog, r *ana.Result, fn *ssa.Function, respRoot, reqRoot 
 	gBasic := pathCmpGate(p, fn, "origin==req.TransmitTime", func(x, y ssa.Value) bool {
 		return isPath(x, respRoot, "OriginTime") && isPath(y, reqRoot, "TransmitTime")
 	}, true)
-	if len(gBasic.Accept) == 0 {
+	// the same test written as one boolean (e.g. the result of a helper): by truth table,
+	// (request was interleaved && origin == req.ReceiveTime) || origin == req.TransmitTime
+	eqPaths := func(f1, f2 string) ana.AtomMatcher {
+		return func(c ana.Cmp, isCmp bool, _ ssa.Value) (bool, bool) {
+			if isCmp && c.Op == token.EQL && isPath(c.X, respRoot, f1) && isPath(c.Y, reqRoot, f2) {
+				return true, true
+			}
+			return false, false
+		}
+	}
+	reqFlag := func(_ ana.Cmp, isCmp bool, v ssa.Value) (bool, bool) {
+		if ph, ok := v.(*ssa.Phi); ok && !isCmp && isReqFlag(ph) {
+			return true, true
+		}
+		return false, false
+	}
+	gWhole := ana.FindGateDNF(p, fn, "origin-echo", [][]ana.AtomMatcher{
+		{reqFlag, eqPaths("OriginTime", "ReceiveTime")},
+		{eqPaths("OriginTime", "TransmitTime")},
+	})
+	if len(gBasic.Accept) == 0 && len(gWhole.Accept) == 0 {
 		r.Violate("C05.accept", ana.FuncName(fn), "origin-basic-missing", p.Pos(fn.Pos()),
 			"no test resp.OriginTime == req.TransmitTime found")
 	}
-	return ana.Union("origin-echo", gInter, gBasic)
+	return ana.Union("origin-echo", gInter, gBasic, gWhole)
 }
 
 // ntpCallArgRoot returns the root alloc of argument idx of the unique call to callee.
